@@ -556,6 +556,41 @@ Proof.
   rewrite Hq' in Hq. assert (Hr' : r = 11/25) by lra. rewrite Hr' in Hrr. lra.
 Qed.
 
+
+(* homogeneity under a change of the length unit: the weights w|J| are multiplied by k = lambda^m
+   (m = dimension of the integrated groups), the shape values and the density values at the Gauss points
+   (f written in the new unit) are unchanged: the load vector is multiplied by k, exactly, whatever k
+   (1e-27 for a micrometre-sized solid in metres as well as 1e9) - no absolute threshold may enter. *)
+Definition scale_g (k : R) (g : gpt) : gpt := mk_gpt (k * wJ g) (fv g) (Nrow g).
+Definition scale_e (k : R) (e : lelem) : lelem := mk_lelem (lnodes e) (map (scale_g k) (lpts e)) (fnod e).
+
+Lemma F_call_scale k e i : F_call (scale_e k e) i = k * F_call e i.
+Proof.
+  unfold F_call, scale_e. simpl. rewrite map_map, <- Rsum_map_scal.
+  apply Rsum_map_ext. intros g _. simpl. ring.
+Qed.
+
+Theorem load_homogeneous k es n :
+  vec (contribs F_call (map (scale_e k) es)) n = k * vec (contribs F_call es) n.
+Proof.
+  unfold vec. rewrite <- Rsum_map_scal.
+  assert (E : contribs F_call (map (scale_e k) es)
+              = map (fun c : nat * R => (fst c, k * snd c)) (contribs F_call es)).
+  { unfold contribs. induction es as [|e es IH]; simpl; auto.
+    rewrite map_app, IH. f_equal. unfold nPe. simpl. rewrite map_map.
+    apply map_ext. intros i. simpl. now rewrite F_call_scale. }
+  rewrite E, map_map. apply Rsum_map_ext. intros c _. simpl.
+  destruct (Nat.eqb (fst c) n); ring.
+Qed.
+
+(* first moments: coordinates in the new unit are lambda * x *)
+Corollary moment_homogeneous (lambda k : R) (x : nat -> R) es ns :
+  Rsum (map (fun n => (lambda * x n) * vec (contribs F_call (map (scale_e k) es)) n) ns)
+  = lambda * k * Rsum (map (fun n => x n * vec (contribs F_call es) n) ns).
+Proof.
+  rewrite <- Rsum_map_scal. apply Rsum_map_ext. intros n _. rewrite load_homogeneous. ring.
+Qed.
+
 (* only loaded elements: a node outside every integrated element gets nothing *)
 Theorem only_loaded_elements F es n :
   (forall e, In e es -> ~ In n (lnodes e)) -> vec (contribs F es) n = 0.
